@@ -28,14 +28,16 @@ pub const VW: usize = 24;
 #[cfg(not(any(feature = "vw24", feature = "vw48", feature = "vw96")))]
 pub const VW: usize = 12;
 
-/// capacity of Vec / Map
-#[cfg(feature = "cap8")]
+/// capacity of Vec / Map (cap21 = one more than the documented maxima of 20 of the RWA registries, C20)
+#[cfg(feature = "cap21")]
+pub const CAP: usize = 21;
+#[cfg(all(feature = "cap8", not(feature = "cap21")))]
 pub const CAP: usize = 8;
-#[cfg(all(feature = "cap3", not(feature = "cap8")))]
+#[cfg(all(feature = "cap3", not(any(feature = "cap8", feature = "cap21"))))]
 pub const CAP: usize = 3;
-#[cfg(all(feature = "cap2", not(any(feature = "cap3", feature = "cap8"))))]
+#[cfg(all(feature = "cap2", not(any(feature = "cap3", feature = "cap8", feature = "cap21"))))]
 pub const CAP: usize = 2;
-#[cfg(not(any(feature = "cap2", feature = "cap3", feature = "cap8")))]
+#[cfg(not(any(feature = "cap2", feature = "cap3", feature = "cap8", feature = "cap21")))]
 pub const CAP: usize = 4;
 
 /// capacity (bytes) of Bytes / String; multiple of 8
@@ -66,9 +68,11 @@ pub const EW: usize = 10;
 pub const NC: usize = 12;
 #[cfg(not(feature = "nc12"))]
 pub const NC: usize = 8;
-#[cfg(feature = "aw40")]
+#[cfg(feature = "aw96")]
+pub const AW: usize = 96;
+#[cfg(all(feature = "aw40", not(feature = "aw96")))]
 pub const AW: usize = 40;
-#[cfg(not(feature = "aw40"))]
+#[cfg(not(any(feature = "aw40", feature = "aw96")))]
 pub const AW: usize = 16;
 /// auth log
 pub const NAUTH: usize = 6;
@@ -271,6 +275,9 @@ pub fn world() -> &'static mut World {
 }
 
 // ---------------------------------------------------------------- failure
+/// feature `traphook`: called with the error code at the start of every trap (see `trap`)
+#[cfg(feature = "traphook")]
+pub static mut ON_TRAP: Option<fn(u32)> = None;
 /// the code touched something outside the harness' declared universe / model capacity
 pub fn overflow() -> ! {
     world().overflow = true;
@@ -285,6 +292,14 @@ pub fn overflow() -> ! {
 /// a failed host invocation (contract error, host trap). In may-fail mode the path ends
 /// (the host rolls the invocation back); in must-succeed mode it is a failed check.
 pub fn trap(_code: u32) -> ! {
+    // feature `traphook`: a harness-installed observer runs first (it lets a converse claim report the trap
+    // under its own clause name); off by default, the default build is unchanged
+    #[cfg(feature = "traphook")]
+    {
+        if let Some(f) = unsafe { ON_TRAP } {
+            f(_code)
+        }
+    }
     #[cfg(kani)]
     {
         if world().must_succeed {
